@@ -19,7 +19,8 @@ RULE = ("templates = typed filters of the SQL fragment whose string literals (in
         "is an expected field name or the alias; no comment token and no ';' outside literals; SQLite prepares "
         "the adversarial clause whenever it prepares the benign one. Exhaustive: every (function, argument) hole "
         "x 40 payloads. Non-trivial: the adversarial content has a metacharacter and the hole is not a plain "
-        "comparison operand; distinct by (template, contents, dialect).")
+        "comparison operand; distinct by (template, contents, dialect)."
+        " Field holes are also filled with hostile spellings over characters that are never OData syntax (\" ; $ [ ] { } \\ # @ ! ? `): the lexer must reject them, or, if one is ever accepted, it must still end up in exactly one quoted identifier.")
 ASSUMPTIONS = ["SQL-92 lexical rules: '' is the only escape inside '...' strings, backslash is an ordinary character",
                "standard and Athena outputs are judged by the harness lexer only; SQLite text is also prepared by sqlite3"]
 
